@@ -1,5 +1,6 @@
 //! C09 harness: aggregates equal a fold over the selection.
 mod cases;
+mod e2e;
 mod oracle;
 mod real;
 mod small;
@@ -40,6 +41,7 @@ pub fn columnar_ok(p: &PlanSpec, batch: &[Vec<Sc>]) -> bool {
 }
 
 fn main() {
+    snel_harness::sys::maybe_child();
     let a = parse_args();
     std::fs::create_dir_all(&a.out).unwrap();
     let root = a.out.join(format!("c09-{}-env", a.stream));
@@ -51,6 +53,7 @@ fn main() {
     match a.stream.as_str() {
         "flow" => rt.block_on(stream_flow(&a, &root)),
         "witness" => rt.block_on(stream_witness(&a, &root)),
+        "e2e" => e2e::stream_e2e(&a),
         "state" => small::stream_state(&a),
         "bucket" => small::stream_bucket(&a),
         "pi64" => small::stream_pi64(&a),
